@@ -96,3 +96,31 @@ func c07Lang(nameOrAlias string) (string, bool) {
 	}
 	return "", false
 }
+
+// H_C07_regexpTokens: one regexp atom assembled from up to 5 (quick) / 6 (thorough) symbolic tokens
+// out of {a, (, ), *, +, ?} [thorough: also |]: whatever query.Parse accepts prints, converts to
+// the wire format and decodes again without an error (the printed regexp is what the receiving side
+// and the match tree compile), and what it rejects is rejected with an error, not a panic.
+func H_C07_regexpTokens() {
+	vocab := []string{"a", "(", ")", "*", "+", "?", "|"}
+	nv := verifrt.Param("regexpVocabulary", 6, 7)
+	nt := verifrt.Concretize(verifrt.IntRange("tokens", 1, verifrt.Param("regexpTokens", 5, 6)))
+	var sb []byte
+	for i := 0; i < nt; i++ {
+		sb = append(sb, vocab[verifrt.Concretize(verifrt.IntRange("token", 0, nv-1))]...)
+	}
+	q, err := Parse(string(sb))
+	verifrt.Observe("err", err != nil)
+	if err == nil {
+		verifrt.Assert(q != nil, "Parse yields a query or an error")
+		_ = q.String()
+		p := QToProto(q)
+		verifrt.Assert(p != nil, "a parsed query converts to the wire format")
+		q2, err2 := QFromProto(p)
+		verifrt.Assert(err2 == nil && q2 != nil, "a parsed regexp query decodes again on the receiving side")
+		if err2 == nil && q2 != nil {
+			verifrt.Assert(q2.String() == q.String(), "and is the same query there")
+		}
+	}
+	verifrt.Reach("returned")
+}
